@@ -822,6 +822,12 @@ func TestC10(t *testing.T) {
 			}
 		}
 	}
+	if !hasConcrete(st.Violations) {
+		waitingStreamUnsetLimits(t, st)
+	}
+	if !hasConcrete(st.Violations) {
+		notifierOnSQLite(t, st)
+	}
 	if corrBroken != nil && len(st.Violations) == 0 {
 		st.Violate(*corrBroken)
 	}
